@@ -1,6 +1,7 @@
 import AffVerif.Proofs.PruneSound
 import AffVerif.Proofs.ArithLift
 import AffVerif.Proofs.CoordLemmas
+import Mathlib.Algebra.Order.BigOperators.Group.List
 /-!
 # C14 — polytope constructors and transformations are set-exact
 
@@ -226,5 +227,271 @@ theorem C14_apply_post (p : Aff α) (n : Nat) (inv : Mat α) (c y : List α)
         · rintro ⟨h1, h2⟩; exact ⟨by linarith, h2⟩
         · rintro ⟨h1, h2⟩; exact ⟨by linarith, h2⟩
   exact key p.mat p.bias hp
+
+theorem eye_length (n : Nat) : (eye n : Mat α).length = n := by simp [eye]
+
+theorem mem_zip_eye_replicate (n : Nat) (r : α) (rb : List α × α) :
+    rb ∈ (eye n : Mat α).zip (List.replicate n r) ↔ ∃ j < n, rb = (unitVec n j 1, r) := by
+  constructor
+  · intro h
+    obtain ⟨i, hi, hrb⟩ := List.getElem_of_mem h
+    have hi' : i < n := by simpa [eye] using hi
+    refine ⟨i, hi', ?_⟩
+    rw [← hrb]
+    simp [eye, List.getElem_zip]
+  · rintro ⟨j, hj, rfl⟩
+    rw [List.mem_iff_getElem]
+    exact ⟨j, by simp [eye, hj], by simp [eye, List.getElem_zip]⟩
+
+theorem mem_zip_negeye_replicate (n : Nat) (r : α) (rb : List α × α) :
+    rb ∈ (matNeg (eye n) : Mat α).zip (List.replicate n r) ↔ ∃ j < n, rb = (vneg (unitVec n j 1), r) := by
+  constructor
+  · intro h
+    obtain ⟨i, hi, hrb⟩ := List.getElem_of_mem h
+    have hi' : i < n := by simpa [eye, matNeg] using hi
+    refine ⟨i, hi', ?_⟩
+    rw [← hrb]
+    simp [eye, matNeg, List.getElem_zip]
+  · rintro ⟨j, hj, rfl⟩
+    rw [List.mem_iff_getElem]
+    exact ⟨j, by simp [eye, matNeg, hj], by simp [eye, matNeg, List.getElem_zip]⟩
+
+/-- `hypercube(n, r)`: the points with every coordinate in `[−r, r]` -/
+theorem C14_hypercube (n : Nat) (r : α) (x : List α) :
+    Poly.Mem (Poly.hypercube n r) x ↔ ∀ j < n, -r ≤ x.getD j 0 ∧ x.getD j 0 ≤ r := by
+  unfold Poly.Mem Poly.hypercube Aff.rows
+  simp only
+  have hz : ((eye n : Mat α) ++ matNeg (eye n)).zip (List.replicate (2*n) r) =
+      (eye n : Mat α).zip (List.replicate n r) ++ (matNeg (eye n) : Mat α).zip (List.replicate n r) := by
+    rw [show 2 * n = n + n by omega, ← List.replicate_append_replicate]
+    exact List.zip_append (by simp [eye])
+  rw [hz]
+  constructor
+  · intro h j hj
+    have h1 := h (unitVec n j 1, r) (List.mem_append_left _ ((mem_zip_eye_replicate n r _).mpr ⟨j, hj, rfl⟩))
+    have h2 := h (vneg (unitVec n j 1), r) (List.mem_append_right _ ((mem_zip_negeye_replicate n r _).mpr ⟨j, hj, rfl⟩))
+    simp only [dot_vneg_left, dot_unitVec, hj, if_true, one_mul] at h1 h2
+    exact ⟨by linarith, h1⟩
+  · intro h rb hrb
+    rcases List.mem_append.mp hrb with hrb | hrb
+    · obtain ⟨j, hj, rfl⟩ := (mem_zip_eye_replicate n r _).mp hrb
+      simp only [dot_unitVec, hj, if_true, one_mul]
+      exact (h j hj).2
+    · obtain ⟨j, hj, rfl⟩ := (mem_zip_negeye_replicate n r _).mp hrb
+      simp only [dot_vneg_left, dot_unitVec, hj, if_true, one_mul]
+      linarith [(h j hj).1]
+
+
+/-- `from_normal(N, P)`: the points on the positive side of every hyperplane through `pᵢ` with normal `nᵢ` -/
+theorem C14_from_normal (n : Nat) (N P : Mat α) (x : List α) :
+    Poly.Mem (Poly.fromNormal n N P) x ↔ ∀ np ∈ N.zip P, dot np.1 np.2 ≤ dot np.1 x := by
+  unfold Poly.Mem Poly.fromNormal Aff.rows matNeg vneg
+  simp only
+  induction N generalizing P with
+  | nil => simp
+  | cons a N ih =>
+    cases P with
+    | nil => simp
+    | cons q P =>
+      simp only [List.map_cons, List.zipWith_cons_cons, List.zip_cons_cons, List.forall_mem_cons]
+      rw [ih P]
+      have := dot_vneg_left a x
+      unfold vneg at this
+      rw [this]
+      constructor
+      · rintro ⟨h1, h2⟩; exact ⟨by linarith, h2⟩
+      · rintro ⟨h1, h2⟩; exact ⟨by linarith, h2⟩
+
+/-- `distance_raw`: the point is in the polytope iff every raw slack `bᵢ − aᵢ·x` is non-negative -/
+theorem C14_distance_raw (p : Aff α) (x : List α) (hp : p.bias.length = p.mat.length) :
+    Poly.Mem p x ↔ ∀ d ∈ Poly.distanceRaw p x, 0 ≤ d := by
+  unfold Poly.Mem Poly.distanceRaw Aff.rows matVec
+  generalize p.mat = M at hp
+  generalize p.bias = b at hp
+  induction M generalizing b with
+  | nil => cases b <;> simp [vsub]
+  | cons r M ih =>
+    cases b with
+    | nil => simp at hp
+    | cons b0 b =>
+      simp only [List.zip_cons_cons, List.forall_mem_cons, List.map_cons, vsub]
+      rw [ih b (by simpa using hp)]
+      constructor
+      · rintro ⟨h1, h2⟩; exact ⟨by linarith, h2⟩
+      · rintro ⟨h1, h2⟩; exact ⟨by linarith, h2⟩
+
+/-- `distance`: dividing a slack by the (positive) Euclidean norm of its row keeps its sign — positive inside the
+    half-space, negative outside, zero on the hyperplane -/
+theorem C14_distance_sign (d k : α) (hk : 0 < k) : (0 ≤ d / k ↔ 0 ≤ d) ∧ (d / k < 0 ↔ d < 0) ∧ (d / k = 0 ↔ d = 0) := by
+  refine ⟨div_nonneg_iff.trans ?_, div_neg_iff.trans ?_, ?_⟩
+  · constructor
+    · rintro (⟨h, _⟩ | ⟨_, h⟩)
+      · exact h
+      · exact absurd hk (not_lt.mpr h)
+    · intro h; exact Or.inl ⟨h, hk.le⟩
+  · constructor
+    · rintro (⟨_, h⟩ | ⟨h, _⟩)
+      · exact absurd hk (not_lt.mpr h.le)
+      · exact h
+    · intro h; exact Or.inr ⟨h, hk⟩
+  · rw [div_eq_zero_iff]
+    constructor
+    · rintro (h | h)
+      · exact h
+      · exact absurd h hk.ne'
+    · intro h; exact Or.inl h
+
+
+theorem mem_zip_range_replicate (m : Nat) (f : Nat → List α) (c : α) (rb : List α × α) :
+    rb ∈ ((List.range m).map f).zip (List.replicate m c) ↔ ∃ i < m, rb = (f i, c) := by
+  constructor
+  · intro h
+    obtain ⟨i, hi, hrb⟩ := List.getElem_of_mem h
+    have hi' : i < m := by simpa using hi
+    refine ⟨i, hi', ?_⟩
+    rw [← hrb]
+    simp [List.getElem_zip]
+  · rintro ⟨j, hj, rfl⟩
+    rw [List.mem_iff_getElem]
+    exact ⟨j, by simp [hj], by simp [List.getElem_zip]⟩
+
+theorem ones_eq_range_map (n : Nat) : (ones n : List α) = (List.range n).map (fun _ => (1 : α)) := by
+  unfold ones
+  induction n with
+  | zero => simp
+  | succ n ih => rw [List.replicate_succ', ih, List.range_succ, List.map_append]; simp
+
+theorem dot_simplex_row (n i : Nat) (d : α) (x : List α) :
+    dot ((List.range n).map (fun j => if i = j then 1 + d else 1)) x =
+      dot (ones n) x + (if i < n then d * x.getD i 0 else 0) := by
+  have : (List.range n).map (fun j => if i = j then 1 + d else (1 : α)) = vadd (ones n) (unitVec n i d) := by
+    rw [ones_eq_range_map, unitVec, vadd_range_map]
+    apply List.map_congr_left
+    intro j _
+    by_cases h : i = j
+    · subst h; simp
+    · have h' : ¬ j = i := fun e => h e.symm
+      simp [h, h']
+  rw [this, dot_vadd_left _ _ _ (by simp [ones, unitVec]), dot_unitVec]
+
+/-- `simplex(n)`: `Σx + dist·xᵢ ≤ 1` for every axis `i` and `Σx ≤ 1`, where `dist = −(1 + √(n+1) + n)`; `nn` and `s` stand
+    for `n` and `√(n+1)` as numbers of the field -/
+theorem C14_simplex (n : Nat) (nn s : α) (x : List α) :
+    Poly.Mem (Poly.simplex n nn s) x ↔
+      (∀ i < n, dot (ones n) x + (-(1 + s + nn)) * x.getD i 0 ≤ 1) ∧ dot (ones n) x ≤ 1 := by
+  unfold Poly.Mem Poly.simplex Aff.rows ones
+  simp only
+  constructor
+  · intro h
+    refine ⟨fun i hi => ?_, ?_⟩
+    · have := h _ ((mem_zip_range_replicate (n+1) _ 1 _).mpr ⟨i, by omega, rfl⟩)
+      simp only [dot_simplex_row, hi, if_true] at this
+      exact this
+    · have := h _ ((mem_zip_range_replicate (n+1) _ 1 _).mpr ⟨n, by omega, rfl⟩)
+      simp only [dot_simplex_row, lt_irrefl, if_false, add_zero] at this
+      exact this
+  · rintro ⟨h1, h2⟩ rb hrb
+    obtain ⟨i, hi, rfl⟩ := (mem_zip_range_replicate (n+1) _ 1 _).mp hrb
+    simp only [dot_simplex_row]
+    by_cases hin : i < n
+    · simp only [hin, if_true]; exact h1 i hin
+    · simp only [hin, if_false, add_zero]; exact h2
+
+
+/-! ### the cross polytope is the unit ball of the 1-norm -/
+
+theorem dot_range'_map (s n : Nat) (f : Nat → α) (x : List α) :
+    dot ((List.range' s n).map f) x = ((List.range' s n).map (fun j => f j * x.getD (j - s) 0)).sum := by
+  induction n generalizing s x with
+  | zero => simp
+  | succ n ih =>
+    rw [List.range'_succ]
+    cases x with
+    | nil =>
+      simp only [List.map_cons, dot_nil_right, List.getD_nil, mul_zero, List.sum_cons, zero_add]
+      symm
+      apply List.sum_eq_zero
+      intro e he
+      simp only [List.mem_map] at he
+      obtain ⟨j, _, rfl⟩ := he
+      rfl
+    | cons b bs =>
+      simp only [List.map_cons, dot_cons, List.sum_cons, Nat.sub_self, List.getD_cons_zero]
+      rw [ih (s+1) bs]
+      congr 1
+      apply congrArg
+      apply List.map_congr_left
+      intro j hj
+      have hj' : s + 1 ≤ j := (List.mem_range'_1.mp hj).1
+      rw [show j - s = (j - (s+1)) + 1 by omega, List.getD_cons_succ]
+
+theorem dot_range_map (n : Nat) (f : Nat → α) (x : List α) :
+    dot ((List.range n).map f) x = ((List.range n).map (fun j => f j * x.getD j 0)).sum := by
+  rw [List.range_eq_range', dot_range'_map]; simp
+
+/-- the number with bit `j` set iff `b j`, for `j < n` -/
+def bitsOf (n : Nat) (b : Nat → Bool) : Nat := ((List.range n).map (fun j => if b j then 2^j else 0)).sum
+
+theorem bitsOf_succ (n : Nat) (b : Nat → Bool) : bitsOf (n+1) b = bitsOf n b + (if b n then 2^n else 0) := by
+  simp [bitsOf, List.range_succ]
+
+theorem bitsOf_lt (n : Nat) (b : Nat → Bool) : bitsOf n b < 2^n := by
+  induction n with
+  | zero => simp [bitsOf]
+  | succ n ih =>
+    rw [bitsOf_succ, Nat.pow_succ]
+    split <;> omega
+
+theorem bitsOf_bit (n : Nat) (b : Nat → Bool) (k : Nat) (hk : k < n) :
+    bitsOf n b / 2^k % 2 = if b k then 1 else 0 := by
+  induction n with
+  | zero => omega
+  | succ n ih =>
+    rw [bitsOf_succ]
+    have hlt := bitsOf_lt n b
+    by_cases hkn : k = n
+    · subst hkn
+      by_cases hb : b k = true
+      · simp only [hb, if_true]
+        rw [Nat.add_div_right _ (Nat.pow_pos (by omega)), Nat.div_eq_of_lt hlt]
+      · simp only [hb, Bool.false_eq_true, if_false, add_zero]
+        rw [Nat.div_eq_of_lt hlt]
+    · have hk' : k < n := by omega
+      by_cases hb : b n = true
+      · simp only [hb, if_true]
+        have : 2^n = 2^k * 2^(n-k) := by rw [← Nat.pow_add]; congr 1; omega
+        rw [this, Nat.add_mul_div_left _ _ (Nat.pow_pos (by omega)), Nat.add_mod]
+        have hev : 2^(n-k) % 2 = 0 := by
+          rw [show n - k = (n - k - 1) + 1 by omega, Nat.pow_succ]; omega
+        rw [hev, add_zero, Nat.mod_mod, ih hk']
+      · simp only [hb, Bool.false_eq_true, if_false, add_zero]
+        exact ih hk'
+
+/-- `cross_polytope(n)` is `{x | Σ|xⱼ| ≤ 1}` -/
+theorem C14_cross_polytope (n : Nat) (x : List α) :
+    Poly.Mem (Poly.crossPolytope n : Aff α) x ↔ ((List.range n).map (fun j => |x.getD j 0|)).sum ≤ 1 := by
+  unfold Poly.Mem Poly.crossPolytope Aff.rows ones
+  simp only
+  constructor
+  · intro h
+    have := h _ ((mem_zip_range_replicate (2^n) _ 1 _).mpr ⟨bitsOf n (fun j => decide (x.getD j 0 < 0)), bitsOf_lt _ _, rfl⟩)
+    rw [dot_range_map] at this
+    refine le_trans (le_of_eq ?_) this
+    apply congrArg
+    apply List.map_congr_left
+    intro j hj
+    rw [bitsOf_bit n _ j (List.mem_range.mp hj)]
+    generalize x.getD j 0 = v
+    by_cases hneg : v < 0
+    · rw [abs_of_neg hneg]; simp [hneg]
+    · rw [abs_of_nonneg (not_lt.mp hneg)]; simp [hneg]
+  · intro h rb hrb
+    obtain ⟨i, hi, rfl⟩ := (mem_zip_range_replicate (2^n) _ 1 _).mp hrb
+    rw [dot_range_map]
+    refine le_trans (List.sum_le_sum ?_) h
+    intro j _
+    split
+    · rw [neg_one_mul]; exact neg_le_abs _
+    · rw [one_mul]; exact le_abs_self _
 
 end AV
